@@ -52,22 +52,24 @@ func (s WSState) Files() map[string]string {
 	// ---- package c
 	var c strings.Builder
 	c.WriteString("// Package c is the leaf of the workspace.\npackage c\n\nimport \"errors\"\n\nvar Counter int\n\n// ErrBase is a sentinel.\nvar ErrBase = errors.New(\"base\")\n\n")
+	// All fact-flipping variants keep the number and position of lines (and,
+	// through //go:noinline, the export data of c) the same: only the facts change.
 	if s.Deprecated {
 		c.WriteString("// Old does nothing.\n//\n// Deprecated: use New.\nfunc Old() {}\n\n")
 	} else {
-		c.WriteString("// Old does nothing.\nfunc Old() {}\n\n")
+		c.WriteString("// Old does nothing.\n//\n// Not deprecated at all.\nfunc Old() {}\n\n")
 	}
 	c.WriteString("// New does nothing.\nfunc New() {}\n\n")
 	if s.Impure {
-		c.WriteString("// Pure doubles x.\nfunc Pure(x int) int {\n\tCounter++\n\treturn x * 2\n}\n\n")
+		c.WriteString("// Pure doubles x.\n//\n//go:noinline\nfunc Pure(x int) int { Counter++; return x * 2 }\n\n")
 	} else {
-		c.WriteString("// Pure doubles x.\nfunc Pure(x int) int { return x * 2 }\n\n")
+		c.WriteString("// Pure doubles x.\n//\n//go:noinline\nfunc Pure(x int) int { x += 0; return x * 2 }\n\n")
 	}
 	c.WriteString("// MyErr is an error.\ntype MyErr struct{}\n\nfunc (*MyErr) Error() string { return \"my\" }\n\n")
 	if s.NeverNil {
-		c.WriteString("// Get returns an error.\nfunc Get() error {\n\tvar p *MyErr\n\treturn p\n}\n\n")
+		c.WriteString("// Get returns an error.\n//\n//go:noinline\nfunc Get() error {\n\tvar p *MyErr\n\tif Counter > 0 {\n\t\tCounter--\n\t}\n\treturn p\n}\n\n")
 	} else {
-		c.WriteString("// Get returns an error.\nfunc Get() error {\n\tif Counter > 0 {\n\t\treturn errors.New(\"boom\")\n\t}\n\treturn nil\n}\n\n")
+		c.WriteString("// Get returns an error.\n//\n//go:noinline\nfunc Get() error {\n\tvar p *MyErr\n\tif Counter > 0 {\n\t\treturn nil\n\t}\n\treturn p\n}\n\n")
 	}
 	c.WriteString("// UserId violates the initialism rule unless configured otherwise.\nfunc UserId() int { return Counter }\n\n// XyzThing is flagged only when XYZ is a configured initialism.\nfunc XyzThing() int { return 1 }\n")
 	fmt.Fprintf(&c, "\n// touch %d\n", s.Touch)
@@ -77,6 +79,7 @@ func (s WSState) Files() map[string]string {
 	var b strings.Builder
 	b.WriteString("// Package b uses c.\npackage b\n\nimport (\n\t\"errors\"\n\t\"fmt\"\n\n\t\"example.com/ws/c\"\n)\n\n")
 	b.WriteString("// UseOld calls the maybe-deprecated function.\nfunc UseOld() {\n\tc.Old()\n\tc.Pure(3)\n}\n\n")
+	b.WriteString("// Wrap relays c.Get, and with it c.Get's nilness fact.\n//\n//go:noinline\nfunc Wrap() error { return c.Get() }\n\n// Twice relays c.Pure's purity.\n//\n//go:noinline\nfunc Twice(x int) int { return c.Pure(x) }\n\n")
 	b.WriteString("// Check compares an interface with nil.\nfunc Check() bool {\n\tif c.Get() == nil {\n\t\treturn true\n\t}\n\treturn false\n}\n\n")
 	switch s.LocalB % 4 {
 	case 1:
@@ -96,6 +99,7 @@ func (s WSState) Files() map[string]string {
 	var a strings.Builder
 	a.WriteString("// Package a is the root.\npackage a\n\nimport (\n\t\"example.com/ws/b\"\n\t. \"example.com/ws/c\"\n)\n\n")
 	a.WriteString("// Run uses everything.\nfunc Run() int {\n\tb.UseOld()\n\tNew()\n\tif b.Check() {\n\t\treturn Pure(1)\n\t}\n\treturn 0\n}\n\n")
+	a.WriteString("// Indirect depends on facts of c that reach a only through b.\nfunc Indirect() bool {\n\tb.Twice(1)\n\tif b.Wrap() == nil {\n\t\treturn true\n\t}\n\treturn false\n}\n\n")
 	a.WriteString("func helperOnlyForTests() int { return 42 }\n\n")
 	switch s.LocalA % 4 {
 	case 1:
@@ -116,7 +120,12 @@ func (s WSState) Files() map[string]string {
 	}
 	for i := 0; i < s.Extra; i++ {
 		var x strings.Builder
-		fmt.Fprintf(&x, "// Package x%d is a filler package.\npackage x%d\n\nimport (\n\t\"example.com/ws/c\"\n", i, i)
+		fmt.Fprintf(&x, "// Package x%d is a filler package.\npackage x%d\n\n", i, i)
+		if i%2 == 1 {
+			// the same problem is covered by a file-wide and by a line directive
+			x.WriteString("//lint:file-ignore SA4000 this file compares things with themselves\n\n")
+		}
+		fmt.Fprintf(&x, "import (\n\t\"example.com/ws/c\"\n")
 		deps := []int{}
 		if i >= 1 {
 			deps = append(deps, i-1)
@@ -134,7 +143,7 @@ func (s WSState) Files() map[string]string {
 		}
 		x.WriteString("\treturn n\n}\n\n")
 		fmt.Fprintf(&x, "func unusedOne%d() {}\n\nfunc unusedTwo%d() {}\n\ntype unusedT%d struct{ a, b int }\n\n", i, i, i)
-		fmt.Fprintf(&x, "// W%d has several problems on nearby lines.\nfunc W%d(x int, b bool) bool {\n\tif b == true {\n\t\treturn x == x\n\t}\n\t//lint:ignore SA4000 deliberate\n\tif x != x {\n\t\treturn true\n\t}\n\treturn false\n}\n", i, i)
+		fmt.Fprintf(&x, "// W%d has several problems on nearby lines.\nfunc W%d(x int, b bool) bool {\n\tif b == true {\n\t\treturn x == x\n\t}\n\t//lint:ignore SA4000 deliberate\n\t//lint:ignore SA4000,S1008 stacked on the same statement\n\tif x != x {\n\t\treturn true\n\t}\n\treturn false\n}\n", i, i)
 		f[fmt.Sprintf("x%d/x%d.go", i, i)] = x.String()
 		if i%3 == 0 {
 			f[fmt.Sprintf("x%d/x%d_test.go", i, i)] = fmt.Sprintf("package x%d\n\nimport \"testing\"\n\nfunc TestV(t *testing.T) {\n\tunusedOne%d()\n\tif V%d() == V%d() == true {\n\t\tt.Log(1)\n\t}\n}\n", i, i, i, i)
